@@ -25,6 +25,10 @@ func (ex *Exec) evalCall(e *ast.CallExpr, st *State) Value {
 		}
 		// spec prelude intercepts
 		switch id.Name {
+		case "cancelled":
+			if _, isFn := ex.objOf(id).(*types.Func); isFn && ex.isPrelude(ex.objOf(id)) {
+				return ex.load(st, ex.cancelLoc()).(*Term)
+			}
 		case "allocated":
 			if _, isFn := ex.objOf(id).(*types.Func); isFn && ex.isPrelude(ex.objOf(id)) {
 				v := ex.eval(e.Args[0], st)
@@ -330,6 +334,9 @@ func (ex *Exec) builtinAppend(e *ast.CallExpr, st *State) Value {
 
 // callFunc dispatches a call of a function value with evaluated arguments.
 func (ex *Exec) callFunc(f *FuncV, args []Value, st *State, site *ast.CallExpr) Value {
+	if f.AbstractID != nil {
+		return ex.callAbstractFunc(f, args, st, site)
+	}
 	if f.Named != "" {
 		return ex.callExternal(f, args, st, site)
 	}
@@ -362,6 +369,24 @@ func (ex *Exec) callFunc(f *FuncV, args []Value, st *State, site *ast.CallExpr) 
 		if _, isIface := f.Obj.Type().(*types.Signature).Recv().Type().Underlying().(*types.Interface); isIface {
 			return ex.callInterface(f, recv, args, st, site)
 		}
+	}
+	// assumed contract declared by the package under verification for this (foreign) function
+	if as := ex.prog.Assumes[ex.targetPkg]; as != nil {
+		rn := ""
+		if sig := fi.Obj.Type().(*types.Signature); sig.Recv() != nil {
+			rn = recvTypeName(sig.Recv().Type())
+		}
+		if blk := as[fi.Pkg.Name+"."+rn+"."+fi.Decl.Name.Name]; blk != nil && !ex.forceInline[rn+"."+fi.Decl.Name.Name] {
+			return ex.contractCall(blk, nil, leadOf(recv), args, resultTypes(fi), st, site)
+		}
+	}
+	// recursion goes through the function's own contract
+	if ex.recursing != nil && ex.recursing.fi == fi && len(ex.frames) > 1 {
+		var rcv Value
+		if ex.recursing.blk.Kind == "func" {
+			rcv = recv
+		}
+		return ex.contractCall(ex.recursing.blk, rcv, nil, args, resultTypes(fi), st, site)
 	}
 	if blk := ex.blockFor(fi); blk != nil {
 		if v, handled := ex.callWithContract(fi, blk, recv, args, st, site); handled {
@@ -532,55 +557,17 @@ func (ex *Exec) callInterface(f *FuncV, recv Value, args []Value, st *State, sit
 // scalar leaves of its arguments (pointers are dereferenced in the current state).
 func (ex *Exec) callOpaqueSpec(fi *FuncInfo, recv Value, args []Value, st *State) Value {
 	var leaves []*Term
-	var flat func(v Value)
-	flat = func(v Value) {
-		switch x := v.(type) {
-		case *Term:
-			leaves = append(leaves, x)
-		case *StructV:
-			for _, f := range x.Fields {
-				flat(f)
-			}
-		case *ArrayV:
-			for _, e := range x.Elems {
-				flat(e)
-			}
-		case *PtrV:
-			if x.Nil {
-				unsupported("opaque spec function applied to nil")
-			}
-			flat(ex.getPath(ex.load(st, x.Loc), x.Path, st, 0))
-		case *HeapRefV:
-			leaves = append(leaves, x.Ref)
-			for _, l := range x.Cls.locs {
-				leaves = append(leaves, ex.load(st, l).(*Term))
-			}
-		case *MapV:
-			if !x.Nil {
-				leaves = append(leaves, x.Val)
-			}
-		case *UFArrayV:
-			// tables are identified by name
-		case nil:
-		default:
-			unsupported("opaque spec function argument of kind %T", v)
-		}
-	}
 	if recv != nil {
-		flat(recv)
+		ex.flattenAny(recv, st, &leaves)
 	}
 	for _, a := range args {
-		flat(a)
+		ex.flattenAny(a, st, &leaves)
 	}
 	sig := fi.Obj.Type().(*types.Signature)
 	if sig.Results().Len() != 1 {
 		unsupported("opaque spec function must have one result")
 	}
-	rs, ok := scalarSort(sig.Results().At(0).Type())
-	if !ok {
-		unsupported("opaque spec function must return a scalar")
-	}
-	return ex.ts.App("spec."+fi.Pkg.Name+"."+fi.Decl.Name.Name, rs, leaves...)
+	return ex.ufResult("spec."+fi.Pkg.Name+"."+fi.Decl.Name.Name, sig.Results().At(0).Type(), leaves, st)
 }
 
 // evalUnfold evaluates unfold(f(args)) for an opaque spec function f: the result is the
@@ -629,4 +616,20 @@ func (ex *Exec) defObj(pk *packages.Package, id *ast.Ident) types.Object {
 	ex.prog.extraMu.RLock()
 	defer ex.prog.extraMu.RUnlock()
 	return ex.prog.Extra.Defs[id]
+}
+
+func leadOf(recv Value) []Value {
+	if recv == nil {
+		return nil
+	}
+	return []Value{recv}
+}
+
+func resultTypes(fi *FuncInfo) []types.Type {
+	sig := fi.Obj.Type().(*types.Signature)
+	var out []types.Type
+	for i := 0; i < sig.Results().Len(); i++ {
+		out = append(out, sig.Results().At(i).Type())
+	}
+	return out
 }
